@@ -333,7 +333,7 @@ def tmpdir():
     pid = os.getpid()
     d = _TMP.get(pid)
     if d is None or not os.path.isdir(d):
-        d = _TMP[pid] = tempfile.mkdtemp(prefix="nvf_")
+        d = _TMP[pid] = tempfile.mkdtemp(prefix="nvf_", dir=os.environ.get("NVF_TMP") or None)
     return d
 
 
